@@ -164,6 +164,19 @@ class CEval:
             args = [self.eval(x, env, this, depth) for x in a[2]]
             recv = self.eval(a[1], env, this, depth) if a[1] is not None else None
             return self.call(fs[0], recv, args, depth + 1)
+        if k == 'index':
+            i = self.eval(a[1], env, this, depth)
+            b = a[0]
+            if b.k == 'var' and isinstance(i, int):
+                try:
+                    vals = self.tu.array_values(b.a[0])
+                except AnalysisError:
+                    vals = None
+                if vals is not None:
+                    if not (0 <= i < len(vals)):
+                        raise Unknown('constant subscript %d outside %s' % (i, b.a[0]))
+                    return vals[i]
+            raise Unknown('subscript of %s' % show(b))
         if k == 'init':
             args = [self.eval(x, env, this, depth) for x in a[1]]
             return ('init', a[0], tuple(args))
